@@ -137,8 +137,15 @@ def mark_final_last_only(prog: Program) -> List[Instance]:
             mf = next((k.value for k in n.keywords if k.arg == "mark_final"), None)
             if mf is None:
                 continue
-            loop = next((a for a in _anc(n, f.node) if isinstance(a, ast.For)), None)
-            idx = {t.id for t in ast.walk(loop.target) if isinstance(t, ast.Name)} if loop is not None else set()
+            idx = set()
+            for a in _anc(n, f.node):
+                if isinstance(a, ast.For):
+                    idx |= {t.id for t in ast.walk(a.target) if isinstance(t, ast.Name)}
+                elif isinstance(a, (ast.ListComp, ast.GeneratorExp, ast.SetComp, ast.DictComp)):
+                    idx |= {t.id for g in a.generators for t in ast.walk(g.target) if isinstance(t, ast.Name)}
+            if not idx:
+                out.append(Instance("R-MPU", f"{f.qual}#PAIRING:mark-final-last", UNDET, "from_dask_bag(mark_final=) is not called per sub-stream inside a loop / comprehension", f.where(n)))
+                continue
             deps = org.deps_names(mf)
             positional = bool(deps & idx) and any(isinstance(x, ast.Call) and call_name(x) == "len" for v in [mf] + [d for nm in deps for _, d in org.defs.get(nm, [])] for x in ast.walk(v))
             out.append(Instance("R-MPU", f"{f.qual}#PAIRING:mark-final-last", OK if positional else BAD,
@@ -216,8 +223,12 @@ def ds_passes_destination(prog: Program) -> List[Instance]:
     THAT to the per-variable DataArray call; passing the caller's raw `how` makes every variable re-derive a
     default grid while the dataset coordinates come from the requested one."""
     f = prog.func("_xr_interop:_xr_reproject_ds")
-    dst = {n.targets[0].id for n in walk_own(f.node) if isinstance(n, ast.Assign) and isinstance(n.targets[0], ast.Name) and isinstance(n.value, ast.Call) and call_name(n.value) == "output_geobox"}
+    from .specific import dst_geobox_locals
+
+    dst = dst_geobox_locals(prog, f)
     out: List[Instance] = []
+    if not dst:
+        return [Instance("R-SIBLING", f"{f.qual}#per-variable-destination", UNDET, "no local holding the destination geobox (result of output_geobox) found", f.where())]
     for nf in list(f.nested.values()) + [f]:
         for n in walk_own(nf.node):
             if isinstance(n, ast.Call) and call_name(n) == "_xr_reproject_da":
